@@ -27,7 +27,7 @@ let monitor kind net impl =
       | "validate" -> "validator-panics-" ^ net
       | _ -> "storage-adapter-panics-" ^ net in
     [site ^ " " ^ impl]
-  else if starts impl "hang" then ["call-does-not-return-" ^ kind ^ " (40 s watchdog)"]
+  else if starts impl "hang" then ["call-does-not-return-" ^ kind ^ " (20 s watchdog)"]
   else []
 
 let handle fields impl : string option * string list =
